@@ -18,6 +18,35 @@ def name(c):
     return c.get("r") or c.get("f") or ""
 
 
+def _normalised(F, b, op, dataflow):
+    """is the operand an item of an iterator that was mapped through FlattenConfigObject::parse(..).to_emmyrc()?"""
+    l = dataflow.operand_local(op)
+    if l is None:
+        return False, "constant operand"
+    rs = dataflow.roots(b, l)
+    # direct: result of to_emmyrc in this body
+    for r in rs:
+        if r[0] == "call" and name(b.blocks[r[1]][2][1]).endswith("FlattenConfigObject::to_emmyrc"):
+            return True, ""
+    if b.kind == "closure" and any(r[0] == "arg" for r in rs):
+        # the closure is the fold/for_each body: look at the adaptor chain in the parent for a map(closure) whose closure ends in to_emmyrc
+        parent = F.bodies.get(b.id.rsplit("::{closure", 1)[0])
+        if parent is not None:
+            for bb, c in parent.calls():
+                n = name(c)
+                if n.endswith(("Iterator::map", "Iterator::filter_map")):
+                    for a in c["a"][1:]:
+                        la = dataflow.operand_local(a)
+                        for d in dataflow.def_sites(parent).get(la, []) if la is not None else []:
+                            if d[0] == "stmt" and d[3][0] == "agg" and d[3][1] == "closure":
+                                cb = F.bodies.get(d[3][2])
+                                if cb is not None and any(name(cc).endswith("FlattenConfigObject::to_emmyrc") for _, cc in cb.calls()) and \
+                                        any(name(cc).endswith("FlattenConfigObject::parse") for _, cc in cb.calls()):
+                                    return True, ""
+        return False, "the items of the merged sequence are the raw parsed files"
+    return False, "operand does not come from to_emmyrc()"
+
+
 def run(chk, F, tier):
     chk.rule("R32", "keyed writes into the resulting JSON configuration are never driven by hash-iteration order")
     chk.assume("decides determinism only; 'the later file wins whichever spelling' and array de-duplication are value-level semantics and are not decided")
@@ -67,4 +96,69 @@ def run(chk, F, tier):
                           witness={"sources": [list(x_) for x_ in hs[:4]]},
                           sample={"rule": "R32", "loop_in": b.id, "verdict": "deterministic iteration order"})
     chk.floor("config-writing loops", nloops, 1)
+    # R32b: configs are merged in one spelling
+    import dataflow
+    chk.rule("R32b", "every configuration value handed to merge_values by the loader went through FlattenConfigObject::parse(..).to_emmyrc() first "
+                     "(flat and nested spellings of one setting must meet under one key, so that the later file wins)")
+    MERGE = CFG + "::config_loader::merge_values"
+    nm = 0
+    for b in cg_scope:
+        if b.id == MERGE or b.id.startswith(MERGE + "::"):
+            continue          # the recursion inside merge_values works on sub-values of already normalised inputs
+        for bb, c in b.calls():
+            if name(c) != MERGE or len(c["a"]) < 2:
+                continue
+            nm += 1
+            # the overlay operand: through closure parameters to the iterator adaptor that produced the items
+            ok, why = _normalised(F, b, c["a"][1], dataflow)
+            chk.check(ok, "R32b", "merge-input@%s" % b.id.replace(CFG + "::", ""),
+                      "%s merges a configuration that was not brought to the nested spelling first (%s): a flat key in one file and the nested "
+                      "form in another survive as two entries and the flat one wins whatever the order of the files" % (b.id.split("::")[-1] if not b.id.endswith("}") else "::".join(b.id.split("::")[-2:]), why),
+                      b.loc(c["l"]), sample={"rule": "R32b", "site": b.id, "verdict": "items pass through parse(..).to_emmyrc()"})
+    chk.floor("merge_values call sites in the loader", nm, 1)
+    # R32c: every parsed configuration takes part in the merge, at its own position
+    import guards
+    chk.rule("R32c", "the loader never drops a parsed configuration because an equal one was collected earlier (the later occurrence must still "
+                     "override what came in between)")
+    npush = 0
+    for b in cg_scope:
+        if "config_loader" not in b.id:
+            continue
+        succ = b.succ_map()
+        pushes = [(bb, c) for bb, c in b.calls() if name(c).endswith("Vec::<T, A>::push") and c["a"] and "serde_json::value::Value" in b.ty_str_op(c["a"][0])]
+        for bb, c in pushes:
+            npush += 1
+            def deep_roots(op, depth=0):
+                l_ = dataflow.operand_local(op)
+                out = set()
+                for r in (dataflow.roots(b, l_) if l_ is not None else ()):
+                    if r[0] == "call" and depth < 4:
+                        cc = b.blocks[r[1]][2][1]
+                        if name(cc).endswith(("Deref>::deref", "DerefMut>::deref_mut", "::as_slice", "::iter", "::as_ref")) and cc["a"]:
+                            out |= deep_roots(cc["a"][0], depth + 1)
+                            continue
+                    out.add(r)
+                return out
+            vec_roots = deep_roots(c["a"][0])
+            bad = None
+            for tb, tc in b.calls():
+                n = name(tc)
+                if not (n.endswith(("::contains", "Iterator::any", "Iterator::position", "PartialEq>::eq", "PartialEq>::ne")) and tc["a"]):
+                    continue
+                ra = set()
+                for a in tc["a"]:
+                    ra |= deep_roots(a)
+                if not (ra & vec_roots):
+                    continue
+                br = guards.bool_branch(b, tb)
+                if not br:
+                    continue
+                r_true, r_false = cfgutil.reachable(succ, br[0]) | {br[0]}, cfgutil.reachable(succ, br[1]) | {br[1]}
+                if (bb in r_true) != (bb in r_false):
+                    bad = tc["l"]
+            chk.check(bad is None, "R32c", "collect@%s#%d" % (b.id.replace(CFG + "::", ""), npush),
+                      "%s adds a parsed configuration to the merge list only when a comparison with the configurations collected so far says so: an equal "
+                      "config that appears again later keeps the position of its first occurrence, so the file in between wins although it is not the last"
+                      % b.id.split("::")[-1], b.loc(bad), sample={"rule": "R32c", "site": b.id, "verdict": "unconditional collection"})
+    chk.floor("collection sites of parsed configurations", npush, 1)
     chk.explanation = "Hash-order taint of the iterator of every loop (in the config module) that writes JSON configuration values."
